@@ -111,7 +111,7 @@ pub(crate) mod __verif_kani {
     #[kani::proof]
     #[kani::unwind(10)]
     pub fn c13_scalar_len3() { scalar_case::<3>(false); }
-    //@ kind=B props=C13 bound=all_inputs_of_length_2 fn=validate_utf8_scalar : same for all strings of length 2
+    //@ kind=B props=C13 tier=thorough bound=all_inputs_of_length_2 fn=validate_utf8_scalar : same for all strings of length 2
     #[kani::proof]
     #[kani::unwind(10)]
     pub fn c13_scalar_len2() { scalar_case::<2>(false); }
@@ -136,5 +136,18 @@ pub(crate) mod __verif_kani {
         let off: usize = kani::any();
         kani::assume(off <= 19);
         assert!(line_and_column(&b, off) == ref_line_col(&b, off));
+    }
+
+    //@ kind=B props=C13 bound=buffer_len<=19,every_pos<=len fn=skip_ascii : contract of the Verus stub (unit c13_scalar): the result r satisfies pos <= r <= len and every byte in [pos, r) is ASCII (two SWAR words plus a scalar tail)
+    #[kani::proof]
+    #[kani::unwind(21)]
+    pub fn c13_skip_ascii_contract() {
+        let b: [u8; 19] = kani::any();
+        let n: usize = kani::any(); kani::assume(n <= 19);
+        let pos: usize = kani::any(); kani::assume(pos <= n);
+        let r = skip_ascii(&b[..n], pos);
+        assert!(pos <= r && r <= n);
+        let i: usize = kani::any(); kani::assume(pos <= i && i < r);
+        assert!(b[i] < 0x80);
     }
 }
